@@ -81,31 +81,32 @@ mod mac_basic__src1;
 mod mac_basic__exppar;
 mod mac_nested__pari;
 mod mac_disj__ser;
-mod rnd_core_02__ser;
-mod rnd_core_04__pari;
-mod rnd_core_07__par;
-mod rnd_core_10__ser;
-mod rnd_core_12__pari;
-mod rnd_core_15__par;
-mod rnd_core_18__ser;
-mod rnd_core_20__pari;
-mod rnd_core_23__par;
-mod rnd_core_26__ser;
-mod rnd_core_28__pari;
-mod rnd_agg_01__par;
-mod rnd_agg_04__ser;
-mod rnd_agg_06__pari;
-mod rnd_agg_09__par;
-mod rnd_agg_12__ser;
-mod rnd_agg_14__pari;
-mod rnd_prec_01__topar;
-mod rnd_prec_03__pari;
-mod rnd_prec_05__ser;
-mod rnd_prec_06__to;
-mod rnd_prec_08__par;
-mod rnd_prea_02__par;
-mod rnd_prea_05__ser;
-mod rnd_prea_07__pari;
+mod stress_rel__ser;
+mod rnd_core_02__pari;
+mod rnd_core_05__par;
+mod rnd_core_08__ser;
+mod rnd_core_10__pari;
+mod rnd_core_13__par;
+mod rnd_core_16__ser;
+mod rnd_core_18__pari;
+mod rnd_core_21__par;
+mod rnd_core_24__ser;
+mod rnd_core_26__pari;
+mod rnd_core_29__par;
+mod rnd_agg_02__ser;
+mod rnd_agg_04__pari;
+mod rnd_agg_07__par;
+mod rnd_agg_10__ser;
+mod rnd_agg_12__pari;
+mod rnd_agg_15__par;
+mod rnd_prec_02__par;
+mod rnd_prec_03__topar;
+mod rnd_prec_05__pari;
+mod rnd_prec_07__ser;
+mod rnd_prec_08__to;
+mod rnd_prea_03__ser;
+mod rnd_prea_05__pari;
+mod rnd_prea_08__par;
 
 fn lookup(name: &str) -> fn() -> Box<dyn Driven> {
    match name {
@@ -182,31 +183,32 @@ fn lookup(name: &str) -> fn() -> Box<dyn Driven> {
       "mac_basic__exppar" => mac_basic__exppar::make,
       "mac_nested__pari" => mac_nested__pari::make,
       "mac_disj__ser" => mac_disj__ser::make,
-      "rnd_core_02__ser" => rnd_core_02__ser::make,
-      "rnd_core_04__pari" => rnd_core_04__pari::make,
-      "rnd_core_07__par" => rnd_core_07__par::make,
-      "rnd_core_10__ser" => rnd_core_10__ser::make,
-      "rnd_core_12__pari" => rnd_core_12__pari::make,
-      "rnd_core_15__par" => rnd_core_15__par::make,
-      "rnd_core_18__ser" => rnd_core_18__ser::make,
-      "rnd_core_20__pari" => rnd_core_20__pari::make,
-      "rnd_core_23__par" => rnd_core_23__par::make,
-      "rnd_core_26__ser" => rnd_core_26__ser::make,
-      "rnd_core_28__pari" => rnd_core_28__pari::make,
-      "rnd_agg_01__par" => rnd_agg_01__par::make,
-      "rnd_agg_04__ser" => rnd_agg_04__ser::make,
-      "rnd_agg_06__pari" => rnd_agg_06__pari::make,
-      "rnd_agg_09__par" => rnd_agg_09__par::make,
-      "rnd_agg_12__ser" => rnd_agg_12__ser::make,
-      "rnd_agg_14__pari" => rnd_agg_14__pari::make,
-      "rnd_prec_01__topar" => rnd_prec_01__topar::make,
-      "rnd_prec_03__pari" => rnd_prec_03__pari::make,
-      "rnd_prec_05__ser" => rnd_prec_05__ser::make,
-      "rnd_prec_06__to" => rnd_prec_06__to::make,
-      "rnd_prec_08__par" => rnd_prec_08__par::make,
-      "rnd_prea_02__par" => rnd_prea_02__par::make,
-      "rnd_prea_05__ser" => rnd_prea_05__ser::make,
-      "rnd_prea_07__pari" => rnd_prea_07__pari::make,
+      "stress_rel__ser" => stress_rel__ser::make,
+      "rnd_core_02__pari" => rnd_core_02__pari::make,
+      "rnd_core_05__par" => rnd_core_05__par::make,
+      "rnd_core_08__ser" => rnd_core_08__ser::make,
+      "rnd_core_10__pari" => rnd_core_10__pari::make,
+      "rnd_core_13__par" => rnd_core_13__par::make,
+      "rnd_core_16__ser" => rnd_core_16__ser::make,
+      "rnd_core_18__pari" => rnd_core_18__pari::make,
+      "rnd_core_21__par" => rnd_core_21__par::make,
+      "rnd_core_24__ser" => rnd_core_24__ser::make,
+      "rnd_core_26__pari" => rnd_core_26__pari::make,
+      "rnd_core_29__par" => rnd_core_29__par::make,
+      "rnd_agg_02__ser" => rnd_agg_02__ser::make,
+      "rnd_agg_04__pari" => rnd_agg_04__pari::make,
+      "rnd_agg_07__par" => rnd_agg_07__par::make,
+      "rnd_agg_10__ser" => rnd_agg_10__ser::make,
+      "rnd_agg_12__pari" => rnd_agg_12__pari::make,
+      "rnd_agg_15__par" => rnd_agg_15__par::make,
+      "rnd_prec_02__par" => rnd_prec_02__par::make,
+      "rnd_prec_03__topar" => rnd_prec_03__topar::make,
+      "rnd_prec_05__pari" => rnd_prec_05__pari::make,
+      "rnd_prec_07__ser" => rnd_prec_07__ser::make,
+      "rnd_prec_08__to" => rnd_prec_08__to::make,
+      "rnd_prea_03__ser" => rnd_prea_03__ser::make,
+      "rnd_prea_05__pari" => rnd_prea_05__pari::make,
+      "rnd_prea_08__par" => rnd_prea_08__par::make,
       _ => panic!("no such program variant in this shard: {}", name),
    }
 }
